@@ -512,6 +512,13 @@ def proof_status(ctx, prop):
                           "&& coqc -Q . CV <Print Assumptions for each theorem>" % prop,
            "forbidden_vernacular_hits": ["%s:%d: %s" % h for h in hits],
            "coq_files_in_scope": coq_deps(prop)}
+    if not ctx.quick and ok:
+        # independent re-check of the compiled files (and everything they depend on) with coqchk
+        rc, out, err = sh(["coqchk", "-o", "-silent", "-Q", COQ, "CV", "CV.Properties_%s" % prop], timeout=1800, cwd=COQ)
+        res["coqchk"] = {"exit": rc, "output_tail": (out + err)[-1500:]}
+        if rc != 0:
+            ok = False
+            bad.append("coqchk rejects Properties_%s.vo" % prop)
     good = ok and ass is not None and discharged == len(thms) and not hits and len(thms) > 0
     if not good:
         res["coq_log_tail"] = log[-3000:]
